@@ -126,8 +126,8 @@ func (d *Driver) startBed() (*bed, error) {
 	}
 
 	return &bed{app: a, remote: rem, client: &http.Client{
-		Timeout:   10 * time.Second,
-		Transport: &http.Transport{MaxIdleConnsPerHost: 4},
+		Timeout:       10 * time.Second,
+		Transport:     &http.Transport{MaxIdleConnsPerHost: 4},
 		CheckRedirect: func(*http.Request, []*http.Request) error { return http.ErrUseLastResponse },
 	}}, nil
 }
